@@ -432,6 +432,36 @@ def r5(repo, run):
                           'not monotone in unsafety: self.%s=%r, other.%s=%r gives %r (must be False)' % (fld, a, fld, b, new), witness=bad)
         else:
             run.ok('C07.R5', fi, '%s: _safe and _default_safe tables (18 rows)' % fi.name, 'False whenever either side is False')
+    # promotion: when the other node is promoted (it takes over the survivor's state: other.__dict__.update(self.__dict__)) the node
+    # that is returned must still be unsafe whenever either operand was
+    for fname in ('ConfigNode._replace_self', 'ConfigNode._replace_other'):
+        fi = repo.func(fname)
+        bad = []
+        rows = 0
+        for fld in ('_safe', '_default_safe'):
+            for a in F3:
+                for b in F3:
+                    me = node_obj('self', 'ConfigDict', **{'_default_safe': None, fld: a})
+                    ot = node_obj('other', 'CallNode', **{'_default_safe': None, fld: b})
+
+                    def promote(name, recv, args, kwargs):
+                        if name != '_maybe_promote':
+                            return recv
+                        o = args[0]
+                        o.f.update({k: v for k, v in recv.f.items() if k != '_children'})
+                        return o
+                    f = FDE(repo, stubs={'_maybe_promote', '_propagate_implicit_values', '_propagate_priority'}, stub=promote)
+                    r = fde_guard(lambda: f.call(fi, me, ot, allow_promotions=True))
+                    rows += 1
+                    ret = r.ret if isinstance(r.ret, Obj) else me
+                    if (a is False or b is False) and ret.f.get(fld) is not False:
+                        bad.append((fld, a, b, ret.name, ret.f.get(fld)))
+        run.table('C07.R5:promotion:' + fi.name, rows, 'returned node after promotion of the other operand')
+        if bad:
+            fld, a, b, who, new = bad[0]
+            run.violation('C07.R5', fi, '%s with promotion' % fi.name, 'not monotone in unsafety when the other node is promoted: self.%s=%r, other.%s=%r returns %s with %s=%r (must be False): the flags are combined after the promoted node took over the survivor\'s state' % (fld, a, fld, b, who, fld, new), witness=[str(x) for x in bad[:5]])
+        else:
+            run.ok('C07.R5', fi, '%s with promotion of the other operand (%d rows)' % (fi.name, rows), 'the returned node is unsafe whenever either operand was')
     for cname in repo.subclasses('ConfigNode', strict=True):
         for m in ('_replace_self', '_replace_other'):
             t = repo.resolve(cname, m)
@@ -586,27 +616,29 @@ def r4c(repo, run):
 
 # ---- R7 -------------------------------------------------------------------------------------------
 def r7(repo, run):
-    # (1) metaclass adopt branch: inherited kwargs are assigned onto an already built child
+    # (1) metaclass adopt branch, evaluated: ConfigNode(<existing node>, implicit_safe=v) never re-enables a node that is
+    #     already implicitly unsafe, and installs v otherwise
     mc = repo.func('ConfigNodeMeta.__call__')
-    n1 = 0
-    badp = None
-    for p in tr.paths_of(repo, mc):
-        for i, e in enumerate(p.events):
-            if e.kind == 'call' and e.callee == 'setattr' and len(e.args) == 3 and e.args[1].text.startswith("'_' +"):
-                n1 += 1
-                facts = e.facts
-                is_safe = [pol for t, pol in facts if "== 'implicit_safe'" in t]
-                spared = any(pol is False and 'is False' in t for t, pol in facts)
-                if not is_safe:
-                    badp = (p, e, 'the inherited kwargs are assigned without singling out implicit_safe')
-                elif any(is_safe) and not spared:
-                    badp = (p, e, 'implicit_safe is assigned although the child\'s own implicit_safe may already be False')
-    if n1 < 1:
-        raise AnalysisError('C07.R7: assignment of inherited kwargs (setattr(child, \'_\' + name, ...)) not found in ConfigNodeMeta.__call__')
-    if badp:
-        run.violation('C07.R7', mc, norm(badp[1].node), 'adoption of an already built child: %s [path: %s] - an unsafe child re-attached under a safe parent becomes safe' % (badp[2], tr.describe(badp[0])), node=badp[1].node)
+    bad1 = []
+    rows1 = 0
+    for ci in F3:
+        for v in (True, False):
+            value = node_obj('value', 'ComposedNode', _children={}, _implicit_safe=ci)
+            f = FDE(repo)
+            r = fde_guard(lambda: f.call(mc, ('class', 'ConfigNode'), value, implicit_safe=v))
+            rows1 += 1
+            if r.raised or r.ret is not value:
+                raise AnalysisError('C07.R7: adoption of an existing node through ConfigNode(value, implicit_safe=...) not evaluable (raised %s)' % r.raised)
+            got = value.f.get('_implicit_safe')
+            want = False if ci is False else v
+            if got is not want:
+                bad1.append((ci, v, got, want))
+    run.table('C07.R7:adoption', rows1, '(child._implicit_safe, implicit_safe handed over on adoption)')
+    if bad1:
+        ci, v, got, want = bad1[0]
+        run.violation('C07.R7', mc, 'adoption of an already built child', 'a child whose inherited safety is %r adopted with implicit_safe=%r ends up with %r (expected %r) - an unsafe child re-attached under a safe parent becomes safe' % (ci, v, got, want), witness=[str(x) for x in bad1])
     else:
-        run.ok('C07.R7', mc, "setattr(child, '_' + name, kwargs[name]) on adoption", 'never reached for implicit_safe when the child is already implicitly unsafe (%d paths)' % n1)
+        run.ok('C07.R7', mc, 'adoption table (%d rows)' % rows1, 'implicit_safe is installed on adoption unless the child is already implicitly unsafe')
     # (2) _propagate_implicit_values: table over (parent _safe None, parent implicit, child implicit)
     prop = repo.func('ComposedNode._propagate_implicit_values')
     bad = []
